@@ -14,6 +14,8 @@ package main
 //	fresh                              the shared trie is a new trie object over the same store and root (empty node cache)
 //	t <tid> ins <path> <hex> | del <path> | get <path> | iter | root | changes | count | deletes | save | savec
 //	        | missing | allmissing | hasmissing | pause <n> | sleep <microseconds>
+//	        | changesread   GetChanges and then read the returned records (known finding C16-getchanges-escape)
+//	        | setver        SetVersion(GetVersion()) - outside the property's operation list, never generated
 //
 // Outputs: as in suite c01 (ok <root> / ok <hex> / notpresent / nodenotfound / iterchild ...); `race` on every line
 // when the race detector stopped the run.
@@ -46,9 +48,9 @@ func init() {
 		Run:  runC16,
 		DefaultN: func(tier string) int {
 			if tier == "thorough" {
-				return 6000
+				return 40000
 			}
-			return 260
+			return 1200
 		},
 		CaseTimeout: 60 * time.Second,
 	})
@@ -244,7 +246,7 @@ func c16Child() {
 			return errKind(err)
 		}
 		if len(root) == 0 {
-			return "ok -"
+			return "ok " // empty trie: nothing to read back
 		}
 		chk := newMPT(util.NewLevelNodeDB(db2, base, false), version, root)
 		ps, err := iterPairs(chk)
@@ -441,6 +443,56 @@ func c16Model(init string, version int64, removed bool) porcupine.Model {
 	}
 }
 
+// c16KeyModel is the map specification restricted to one key (porcupine partitions the history by key); state =
+// the key's value in hex, "" = absent, "\x00" = not yet touched (resolved from the setup content).
+func c16KeyModel(initial map[string]string) porcupine.Model {
+	return porcupine.Model{
+		Partition: func(h []porcupine.Operation) [][]porcupine.Operation {
+			by := map[string][]porcupine.Operation{}
+			var order []string
+			for _, o := range h {
+				k := o.Input.(linIn).key
+				if _, ok := by[k]; !ok {
+					order = append(order, k)
+				}
+				by[k] = append(by[k], o)
+			}
+			var out [][]porcupine.Operation
+			for _, k := range order {
+				out = append(out, by[k])
+			}
+			return out
+		},
+		Init:  func() interface{} { return "\x00" },
+		Equal: func(a, b interface{}) bool { return a.(string) == b.(string) },
+		Step: func(state, input, output interface{}) (bool, interface{}) {
+			st, in, out := state.(string), input.(linIn), output.(string)
+			if st == "\x00" {
+				st = initial[in.key]
+			}
+			switch in.kind {
+			case "ins":
+				return strings.HasPrefix(out, "ok "), in.val
+			case "del":
+				if out == "notpresent" {
+					return st == "", st
+				}
+				return strings.HasPrefix(out, "ok ") && st != "", ""
+			case "get":
+				if out == "notpresent" {
+					return st == "", st
+				}
+				return st != "" && out == "ok "+st, st
+			}
+			return false, st
+		},
+		DescribeOperation: func(input, output interface{}) string {
+			in := input.(linIn)
+			return fmt.Sprintf("%s %s %s -> %s", in.kind, ptok(in.key), in.val, output.(string))
+		},
+	}
+}
+
 var raceEnabled = false // set by race_on.go under the race build tag
 
 func raceSummary(stderr string) string {
@@ -489,6 +541,34 @@ func raceSummary(stderr string) string {
 	return strings.Join(keep, " | ")
 }
 
+// getChangesEscape is the matcher of known finding C16-getchanges-escape: the case reads the records returned by
+// GetChanges (op changesread) and the reported race is between ChangeCollector.AddChange updating such a record in
+// place and the harness reading it (top frames: util.(*ChangeCollector).AddChange vs. main.c16...). Any other race
+// - in particular any race between two methods of the trie - is not accepted.
+func getChangesEscape(ops []string, summary string) bool {
+	has := false
+	for _, op := range ops {
+		f := strings.Fields(op)
+		if len(f) >= 3 && f[0] == "t" && f[2] == "changesread" {
+			has = true
+		}
+	}
+	parts := strings.Split(summary, " | ")
+	if !has || len(parts) < 3 {
+		return false
+	}
+	top := func(p string) string {
+		if i := strings.Index(p, ": "); i >= 0 {
+			p = p[i+2:]
+		}
+		return strings.TrimSpace(strings.Split(p, " < ")[0])
+	}
+	a, b := top(parts[1]), top(parts[2])
+	isAdd := func(x string) bool { return x == "util.(*ChangeCollector).AddChange" }
+	isHarness := func(x string) bool { return strings.HasPrefix(x, "main.c16") }
+	return (isAdd(a) && isHarness(b)) || (isAdd(b) && isHarness(a))
+}
+
 func runC16(ops []string) (res CaseResult) {
 	all := func(s string) []string {
 		o := make([]string, len(ops))
@@ -504,7 +584,7 @@ func runC16(ops []string) (res CaseResult) {
 	ctx, cancel := context.WithTimeout(context.Background(), 45*time.Second)
 	defer cancel()
 	cmd := exec.CommandContext(ctx, exe, "c16child")
-	cmd.Env = append(os.Environ(), "GORACE=halt_on_error=1 exitcode=66")
+	cmd.Env = append(os.Environ(), "GORACE=halt_on_error=1 exitcode=66 atexit_sleep_ms=0")
 	cmd.Stdin = strings.NewReader(strings.Join(ops, "\n") + "\n")
 	var stdout, stderr bytes.Buffer
 	cmd.Stdout, cmd.Stderr = &stdout, &stderr
@@ -527,7 +607,11 @@ func runC16(ops []string) (res CaseResult) {
 		if code == 66 {
 			tags["DATA-RACE"] = true
 			res.Outs = all("race")
-			res.Fails = []string{"DATA RACE reported by the race detector: " + raceSummary(stderr.String())}
+			sum := raceSummary(stderr.String())
+			res.Fails = []string{"DATA RACE reported by the race detector: " + sum}
+			if getChangesEscape(ops, sum) {
+				res.Finding = "C16-getchanges-escape"
+			}
 			return res
 		}
 		msg := stderr.String()
@@ -602,6 +686,7 @@ func runC16(ops []string) (res CaseResult) {
 	var hist []porcupine.Operation
 	fullState := removed
 	absentHits, updatesOK := 0, 0
+	emptyProbe := false
 	onlyGetsHit := true
 	for i, op := range ops {
 		f := strings.Fields(op)
@@ -620,6 +705,14 @@ func runC16(ops []string) (res CaseResult) {
 			continue
 		}
 		soft := out == "nodenotfound" || out == "iterchild" || out == "missingnodes"
+		if soft && !removed && f[2] == "allmissing" {
+			// GetAllMissingNodes on an EMPTY trie looks up the nil root key, returns "node not found" and records
+			// a nil key in the missing-node list. Sequential behaviour, a matter of C17 (exact missing-node
+			// detection), not of the lock discipline: tolerated here, tagged for the distribution.
+			tags["allmissing-on-empty-trie"] = true
+			emptyProbe = true
+			continue
+		}
 		if soft {
 			if !removed {
 				fail("op %d (%s): returned %s although no node was removed from the store", i, op, out)
@@ -644,8 +737,12 @@ func runC16(ops []string) (res CaseResult) {
 			}
 		case "get":
 			in = linIn{"get", pathOf(f[3]), ""}
-		case "iter", "root", "changes":
-			in = linIn{f[2], "", ""}
+		case "iter", "root", "changes", "changesread":
+			k := f[2]
+			if k == "changesread" {
+				k = "changes"
+			}
+			in = linIn{k, "", ""}
 			fullState = true
 		case "allmissing":
 			if !removed && out != "ok 0" {
@@ -663,7 +760,7 @@ func runC16(ops []string) (res CaseResult) {
 				onlyGetsHit = false
 			}
 			continue
-		case "save", "savec", "count", "deletes", "missing":
+		case "save", "savec", "count", "deletes", "missing", "setver":
 			if strings.HasPrefix(out, "err") {
 				fail("op %d (%s): returned %s", i, op, out)
 			}
@@ -703,8 +800,42 @@ func runC16(ops []string) (res CaseResult) {
 			}
 		}
 	}
-	_ = fullState
 	model := c16Model(init, version, removed)
+	if !fullState {
+		// only single-key operations: check each key's sub-history on its own (the final content becomes one
+		// final lookup per key; the final root is compared with the canonical root of the final content below)
+		tags["partitioned-by-key"] = true
+		var kh []porcupine.Operation
+		keys := map[string]bool{}
+		for k := range content {
+			keys[k] = true
+		}
+		var fc, fr int64
+		for _, h := range hist {
+			in := h.Input.(linIn)
+			if in.kind == "iter" || in.kind == "root" {
+				fc, fr = h.Call, h.Return
+				continue
+			}
+			keys[in.key] = true
+			kh = append(kh, h)
+		}
+		if strings.HasPrefix(finalIter, "ok ") {
+			fm := parseContent(finalIter[3:])
+			for k := range fm {
+				keys[k] = true
+			}
+			for k := range keys {
+				out := "notpresent"
+				if v, ok := fm[k]; ok {
+					out = "ok " + v
+				}
+				kh = append(kh, porcupine.Operation{ClientId: 99, Input: linIn{"get", k, ""}, Call: fc, Output: out, Return: fr})
+			}
+		}
+		hist = kh
+		model = c16KeyModel(content)
+	}
 	switch porcupine.CheckOperationsTimeout(model, hist, 10*time.Second) {
 	case porcupine.Illegal:
 		tags["not-linearizable"] = true
@@ -728,7 +859,7 @@ func runC16(ops []string) (res CaseResult) {
 		if finalSaved != finalIter {
 			fail("content readable from the saved change sets on top of the setup snapshot is %q, final content is %q", finalSaved, finalIter)
 		}
-		if finalMissing != "0" {
+		if finalMissing != "0" && !emptyProbe {
 			fail("missing-node list has %s entries on a complete store", finalMissing)
 		}
 	} else {
@@ -852,6 +983,9 @@ func genC16(r *rand.Rand, tier string, idx int) []string {
 					line = "savec"
 				case x < 60:
 					line = "changes"
+					if idx%16 == 3 {
+						line = "changesread" // known finding C16-getchanges-escape
+					}
 				case x < 75:
 					line = "count"
 				case x < 85:
